@@ -7,7 +7,8 @@ from lib import coq_list as L
 THEOREMS = ['C03_chain_spec', 'C03_chain_assert', 'C03_lalr_filters_copy', 'C03_lalr_builds_shape',
             'C03_shape_total', 'C03_placeholders_count', 'C03_earley_resolve_is_shape_of_derivation', 'C03_cnf_roundtrip_partial', 'C03_cyk_is_shape',
             'C03_engines_agree_partial', 'C03_cyk_chart_sound', 'C03_cyk_chart_complete', 'C03_cyk_chart_unique',
-            'C03_cyk_returns_shape_of_derivation', 'C03_cyk_accepts_sentences', 'C03_cyk_unambiguous', 'C03_find_rule_size', 'C03_maybe_untaken',
+            'C03_cyk_returns_shape_of_derivation', 'C03_cyk_accepts_sentences', 'C03_cyk_unambiguous',
+            'C03_cnf_link', 'C03_cyk_engine', 'C03_find_rule_size', 'C03_maybe_untaken',
             'C03_example_rule', 'C03_example_size', 'C03_example_derivation']
 GEN_DEPS = []
 RULE = ('(a) random compiled-rule records (0-5 symbols, terminals/rules, `_` names, filter_out, alias, template source, '
@@ -30,7 +31,8 @@ RULE = ('(a) random compiled-rule records (0-5 symbols, terminals/rules, `_` nam
         'EBNF_to_BNF.maybe against Shape/Ebnf.frs and the longest-alternative count; (r) fixed F18 regression grammars; (g) Earley leg: the SPPF lark builds (ambiguity=forest, basic / dynamic '
         'lexer) is exported and ForestToParseTree(resolve) with the chain callbacks is evaluated on it in Coq: must equal '
         'the tree Lark(ambiguity=resolve) returns and the shape of the selected derivation; (k) CYK leg: the CNF grammar '
-        'cyk.to_cnf builds is compared as a set with Shape/Cnf.to_cnf, and for every CYK parse the CNF tree handed to '
+        'cyk.to_cnf builds is compared as a set with Shape/Cnf.to_cnf and both are evaluated against CnfLink.closure_check '
+        '(the hypothesis of C03_cyk_engine: canonical rules only, all enumerated canonical rules present, unit rules acyclic), and for every CYK parse the CNF tree handed to '
         'revert_cnf, the reverted tree and the returned tree are compared with Cnf.revert, Cnf.cnf_of (pre-image) and shape, '
         'and (inputs of <= 7 tokens) the whole table cyk._parse filled - rules per span as sets, keys of the tree dicts, every '
         'recorded tree a CNF derivation of its span - with CykParse.cyk_cell. '
@@ -47,7 +49,7 @@ ASSUMPTIONS = ['terminals of the end-to-end grammars are single distinct charact
                'GrammarError at construction (colliding optional expansions, LALR conflicts) and CYK\'s rejection of '
                'empty rules exclude the engine for that grammar']
 IMPORTS = ('From LV Require Import Base.Prelude Forest.Sppf Forest.Prio Shape.Chain Shape.Spec Shape.Transform Shape.Ebnf '
-           'Shape.EarleyLeg Shape.Cnf Shape.CykParse Shape.ChainCheck.')
+           'Shape.EarleyLeg Shape.Cnf Shape.CykParse Shape.CnfLink Shape.ChainCheck.')
 
 ENGINES = [('earley', 'dynamic', 'resolve'), ('earley', 'basic', 'resolve'), ('earley', 'dynamic_complete', 'resolve'),
            ('earley', 'dynamic', 'explicit'), ('lalr', 'basic', None), ('lalr', 'contextual', None), ('cyk', 'basic', None)]
@@ -305,7 +307,7 @@ def cyk_cases(ctx, cyk, gtext, texts, ka, mp):
     def hg():
         ctx.violation('correspondence:Shape/Cnf.to_cnf vs cyk.to_cnf', {'no_longer_checks': 'CNF grammar (as a set of rules)',
                                                                           'grammar': gtext, 'keep_all_tokens': ka}, False,
-                      'the CNF grammar lark built differs from the model')
+                      'the CNF grammar lark built differs from the model, or one of them fails closure_check / CNF shape')
     DEFER.add('(CaseCNFG ((%s, %s) : cnfg_case))' % (rules, g), ('cnfg', hg))
     for text in texts:
         try:
@@ -482,7 +484,7 @@ def correspond(ctx):
 
     # (c) end to end -----------------------------------------------------------------------------------
     sl.LITS[:] = [c for c in sl.LITS if c != 'a'] if f18_present else sl.ALL_LITS[:]
-    ngram = ctx.scale(55, 350) * wide
+    ngram = ctx.scale(48, 350) * wide
     e2e_cases, e2e_meta = [], []
     comp_records = []
     tried = 0
@@ -570,7 +572,7 @@ def correspond(ctx):
     find_rule_size_stream(ctx)
 
     # (a) random rule records against lark's callback objects ---------------------------------------
-    recs = [sl.random_record(rng, True) for _ in range(ctx.scale(140, 450) * wide)]
+    recs = [sl.random_record(rng, True) for _ in range(ctx.scale(110, 450) * wide)]
     callback_cases(ctx, recs, 'callback-random', True)
 
     # (b) compiled rules of those grammars against the callback objects --------------------------------
@@ -579,7 +581,7 @@ def correspond(ctx):
         uniq[json.dumps(r, sort_keys=True)] = r
     recs = list(uniq.values())
     rng.shuffle(recs)
-    callback_cases(ctx, recs[:ctx.scale(80, 300)], 'callback-compiled', False)
+    callback_cases(ctx, recs[:ctx.scale(60, 300)], 'callback-compiled', False)
     DEFER.run(ctx, 'c03', 'c03_check')
     # (x) regression F44 (fixed in /repo): CYK's to_cnf lost unit-skip rules depending on the hash seed
     # (UnitSkipRule.__eq__ ignored lhs/rhs); the witness runs in fresh interpreters over hash seeds 0..11
